@@ -347,6 +347,57 @@ func ruleDecodeWidth(p *Prog, r *Report) {
 		fac  string
 	}{{"binary", 0o10, "NewBinaryNode"}, {"boolean", 0o11, "NewBooleanNode"}, {"ascii", 0o20, "NewASCIINode"}} {
 		key := fmt.Sprintf("%s:hsms.parseMessageText:%s", rule, c.name)
+		// by evaluation first: the item decoder on a header of this format
+		// declaring three payload bytes, which stay symbolic
+		fac, args, elems, ok := decodeItemRun(p, c.code, 1, 3)
+		if c.name == "boolean" {
+			// a boolean is chosen by a test of the byte: the payload 00 01 00
+			res, okB := decodeItemBytes(p, c.code, 3, true)
+			fac, args, elems, ok = res.fac, res.args, res.elems, okB
+		}
+		if ok && fac == c.fac {
+			pos := p.Pos(fn.Pos())
+			var probs []string
+			switch c.name {
+			case "ascii":
+				t := ""
+				if len(args) > 0 {
+					t, _ = termOf(args[0])
+				}
+				if t != "string(p0.input[18:21])" {
+					probs = append(probs, fmt.Sprintf("the ASCII payload handed to the factory is %q, not the three payload bytes converted once", t))
+				}
+			default:
+				if len(elems) != 3 {
+					probs = append(probs, fmt.Sprintf("%d values are handed to the factory for three payload bytes", len(elems)))
+				}
+				for i, v := range elems {
+					if v.K != KIface || v.Inner == nil {
+						probs = append(probs, "element of unknown type: "+v.String())
+						continue
+					}
+					tn := types.TypeString(v.T, nil)
+					t, _ := termOf(*v.Inner)
+					if c.name == "binary" {
+						if want := fmt.Sprintf("int(p0.input[%d])", 18+i); tn != "int" || t != want {
+							probs = append(probs, fmt.Sprintf("element %d is %s(%s): the factory accepts a byte value only as %s", i, tn, t, want))
+						}
+					} else if tn != "bool" {
+						probs = append(probs, "element of type "+tn+" instead of bool")
+					} else if v.Inner.K != KBool || v.Inner.B != (i%2 == 1) {
+						probs = append(probs, fmt.Sprintf("the payload 00 01 00 gives %s at position %d", v.Inner, i))
+					}
+				}
+			}
+			if len(probs) > 0 {
+				r.bad(rule, key, pos, strings.Join(uniq(probs), "; "))
+			} else if c.name == "boolean" {
+				r.ok(rule, key, pos, "evaluated on the payload 00 01 00: "+c.fac+" receives the bool values false, true, false")
+			} else {
+				r.ok(rule, key, pos, "evaluated on an item of three symbolic payload bytes: "+c.fac+" receives them with the type it accepts, each from its own position")
+			}
+			continue
+		}
 		in := decoderInterp(p)
 		in.Symbolic = true
 		in.PathBind["p0.msgLength"] = int64Val(11)
